@@ -1258,19 +1258,33 @@ func symParseFloat(fr *frame, s *symstr, bits int) value {
 	if n == 0 {
 		return fail()
 	}
-	// exclude letters other than e/E (inf, nan, hex, underscores): outside the model
+	// bytes outside [0-9+-.eE]: only inf / infinity / nan (any case, optional sign for inf) and hex floats are accepted
+	var others []*sym.Term
 	for _, x := range b {
 		t := byteTerm(x)
-		other := sym.And(sym.Not(inRange8(t, '0', '9')), sym.Not(sym.Eq(t, u8('+'))), sym.Not(sym.Eq(t, u8('-'))),
-			sym.Not(sym.Eq(t, u8('.'))), sym.Not(sym.Eq(t, u8('e'))), sym.Not(sym.Eq(t, u8('E'))))
-		if fr.decide(other) {
-			// any other byte: real ParseFloat fails unless it spells inf/infinity/nan or a hex float or uses '_'
-			letters := sym.Or(inRange8(t, 'a', 'z'), inRange8(t, 'A', 'Z'), sym.Eq(t, u8('_')))
-			if fr.decide(letters) {
-				panic(pathEnd{status: stUnsupported, detail: "ParseFloat model: letters (inf/nan/hex/underscore) not modelled"})
+		others = append(others, sym.And(sym.Not(inRange8(t, '0', '9')), sym.Not(sym.Eq(t, u8('+'))), sym.Not(sym.Eq(t, u8('-'))),
+			sym.Not(sym.Eq(t, u8('.'))), sym.Not(sym.Eq(t, u8('e'))), sym.Not(sym.Eq(t, u8('E')))))
+	}
+	if fr.decide(sym.Or(others...)) {
+		low := mkStr(mapBytes(b, lowerByte))
+		for _, sp := range []struct {
+			s string
+			v float64
+		}{{"inf", math.Inf(1)}, {"+inf", math.Inf(1)}, {"-inf", math.Inf(-1)}, {"infinity", math.Inf(1)}, {"+infinity", math.Inf(1)}, {"-infinity", math.Inf(-1)}, {"nan", math.NaN()}} {
+			if len(sp.s) == n && fr.decide(eqString(low, sp.s)) {
+				return tuple{sp.v, iface{}}
 			}
-			return fail()
 		}
+		// hex float: optional sign, then 0x / 0X
+		k := 0
+		if fr.decide(sym.Or(isB(b[0], '+'), isB(b[0], '-'))) {
+			k = 1
+		}
+		// the shortest hexadecimal float is 0x1p0: shorter strings are syntax errors
+		if n-k >= 5 && fr.decide(sym.And(isB(b[k], '0'), sym.Or(isB(b[k+1], 'x'), isB(b[k+1], 'X')))) {
+			panic(pathEnd{status: stUnsupported, detail: "ParseFloat model: hexadecimal floats are not modelled"})
+		}
+		return fail()
 	}
 	if fr.decide(sym.Or(isB(b[i], '+'), isB(b[i], '-'))) {
 		i++
